@@ -68,8 +68,67 @@ def collective_alignment(fnode):
                     # a collective inside a try body whose handler swallows exceptions: a rank that raised earlier skips it
                     pass
                 child, cur = cur, par.get(id(cur))
+            esc = _variant_escape_before(n, fnode, par, ana)
+            if ok and esc is not None:
+                ok, why = False, "a `%s` at line %d, taken under a rank-dependent condition, lets some ranks skip it" % esc
             out.append(("comm.%s at line %d is reached under rank-invariant control%s" % (n.func.attr, n.lineno, (" -- " + why) if why else ""), ok, n.lineno))
     return out
+
+
+def _blocks_of(node):
+    for f in ("body", "orelse", "finalbody"):
+        b = getattr(node, f, None)
+        if isinstance(b, list):
+            yield b
+    for h in getattr(node, "handlers", []) or []:
+        yield h.body
+
+
+def _variant_escape_before(n, fnode, par, ana):
+    """(kind, line) of a return / break / continue that precedes the node `n` in program order, is executed under a rank-dependent condition and makes the
+    ranks that take it skip `n` (a return anywhere before it; a break / continue whose loop contains `n`), or None."""
+    anc = []
+    cur = n
+    while cur is not None and cur is not fnode:
+        anc.append(cur)
+        cur = par.get(id(cur))
+    anc.append(fnode)
+    anc_ids = {id(a) for a in anc}
+    for child, parent in zip(anc, anc[1:]):
+        for block in _blocks_of(parent):
+            if not any(s is child for s in block):
+                continue
+            for s in block:
+                if s is child:
+                    break
+                for e in ast.walk(s):
+                    if not isinstance(e, (ast.Return, ast.Break, ast.Continue)):
+                        continue
+                    # inside a nested function definition: not an exit of this function
+                    c2, nested, variant, loop = par.get(id(e)), False, False, None
+                    prev = e
+                    while c2 is not None and prev is not s:
+                        if isinstance(c2, (ast.FunctionDef, ast.Lambda, ast.AsyncFunctionDef)):
+                            nested = True
+                        if isinstance(c2, (ast.If, ast.While)) and prev is not c2.test and ana.cond.get(id(c2), False):
+                            variant = True
+                        if isinstance(c2, ast.For) and prev is not c2.iter and ana.cond.get(id(c2), False):
+                            variant = True
+                        if loop is None and isinstance(c2, (ast.For, ast.While)):
+                            loop = c2
+                        prev, c2 = c2, par.get(id(c2))
+                    if nested or not variant:
+                        continue
+                    if isinstance(e, ast.Return):
+                        return ("return", e.lineno)
+                    # break / continue: only if its loop is not inside the preceding statement itself, i.e. the loop encloses the collective
+                    if loop is None:
+                        lp = par.get(id(s))
+                        while lp is not None and not isinstance(lp, (ast.For, ast.While)):
+                            lp = par.get(id(lp))
+                        if lp is not None and id(lp) in anc_ids:
+                            return ("break" if isinstance(e, ast.Break) else "continue", e.lineno)
+    return None
 
 
 def io_ownership(fnode, allow_rank_named=True):
@@ -234,6 +293,9 @@ def call_alignment(trees):
                 if isinstance(cur, ast.ExceptHandler):
                     ok, why = False, "inside an exception handler"
                 child, cur = cur, par.get(id(cur))
+            esc = _variant_escape_before(n, f, par, ana)
+            if ok and esc is not None:
+                ok, why = False, "a `%s` at line %d, taken under a rank-dependent condition, lets some ranks skip it" % esc
             out.append((key, "call of %s.%s (executes MPI collectives) at line %d is reached under rank-invariant control%s" % (
                 tgt[0], tgt[1], n.lineno, (" -- " + why) if why else ""), ok, n.lineno))
     return out
